@@ -1115,6 +1115,11 @@ class Explorer:
             if a[0] == "c" and b[0] == "c":
                 return ret(out(C(1 if a[1] == b[1] else 0, "bool")))
             return ret(out(SYM(self.cap(("cmp", "Eq", a, b)))))
+        if p in ("std::cmp::PartialOrd::lt", "std::cmp::PartialOrd::le", "std::cmp::PartialOrd::gt", "std::cmp::PartialOrd::ge"):
+            a = self.deref(st, args[0])
+            b = self.deref(st, args[1])
+            op = {"lt": "Lt", "le": "Le", "gt": "Gt", "ge": "Ge"}[name]
+            return ret(self.binop(st, op, a, b))
         # ---- TypeId role tests
         if p == "std::any::TypeId::of":
             return ret(SYM(("typeid", info["targs"][0])))
